@@ -149,6 +149,28 @@ func startVflowOnce(dir string, ports e2ePorts, cfg e2eConfig, race bool) (*vflo
 	}
 	mqLines := map[string]string{"url": fmt.Sprintf("%q", cfg.SinkAddr), "protocol": "tcp", "retry-max": "2"}
 	for k, v := range cfg.Extra {
+		if k == "~elements~" {
+			// the shipped information-element file is installed in the configuration directory (as a copy, or as a
+			// symbolic link to one): decoding must not depend on it
+			src, err := os.ReadFile(filepath.Join(repoDir(), "scripts", "ipfix.elements"))
+			if err != nil {
+				return nil, fmt.Errorf("harness: %v", err)
+			}
+			dst := filepath.Join(dir, "ipfix.elements")
+			os.Remove(dst)
+			if v == "link" {
+				real := filepath.Join(dir, "ipfix.elements.real")
+				if err := os.WriteFile(real, src, 0o644); err != nil {
+					return nil, fmt.Errorf("harness: %v", err)
+				}
+				if err := os.Symlink("ipfix.elements.real", dst); err != nil {
+					return nil, fmt.Errorf("harness: %v", err)
+				}
+			} else if err := os.WriteFile(dst, src, 0o644); err != nil {
+				return nil, fmt.Errorf("harness: %v", err)
+			}
+			continue
+		}
 		if strings.HasPrefix(k, "mq:") {
 			// a setting of the producer's own configuration file ("~drop~" removes the line)
 			if v == "~drop~" {
